@@ -12,7 +12,9 @@ POOL = 8
 
 
 def generators(tier, seed):
-    return [dict(module="MC_C07", workers=2)]
+    return [dict(module="MC_C07", workers=2),
+            # pseudo-random trees (WorldRnd): quick 3, thorough 30
+            dict(module="MC_C07r", cfg="MC_C07r_q" if tier == "quick" else "MC_C07r_t", workers=4)]
 
 MANIFEST = dict(
     design_ref="DESIGN.md §5 C07",
